@@ -150,6 +150,9 @@ class Gen:
                 v = [q(R + b'/' + st['root'])]
                 ents.append([kw] + v)
                 st['robsddir'] = True
+            elif kw == b'canvas-name':
+                # never the name of a program: step commands may start with ${canvas-name}
+                ents.append([kw, q(r.choice([b'plain', b'x=1', b'UPPER', b'with space', b'knfmt', b'${arch}']))])
             else:
                 ents.append([kw] + self.value(kind, st))
         return ents, st
